@@ -162,6 +162,29 @@ def main() -> int:
             replays.append(rp)
             tail = "" if native.get("reproduced") else " no-failing-input-found"
             lines.append(f"VIOLATION property={prop} replay={rp}{tail}")
+    # ---- bounded stand-in when the deductive check is undecided ------------------------------------------
+    # (a construct outside the verified subset, a solver unknown): run the property's native scenario families
+    # against the real code.  A failing scenario is a real failing history => VIOLATION (labelled bounded);
+    # passing scenarios prove nothing and the check stays undecided.
+    bounded_fallback = None
+    if not violations and (undecided_units or still_unknown) and not crashed:
+        from replay import driver, scenarios
+
+        bounded_fallback = {"ran": [], "bounded": True}
+        for name in scenarios.BY_PROPERTY.get(prop, []):
+            code, out = driver.run_native("replay/scenarios_run.py", [name])
+            bounded_fallback["ran"].append({"scenario": name, "exit": code})
+            if code == 1:
+                h = hashlib.sha256(name.encode()).hexdigest()[:10]
+                rp = os.path.join(HERE, "replays", f"{prop}-scenario-{h}.json")
+                doc = {"property": prop, "unit": "; ".join(r["unit"] for r in undecided_units) or "(unknown obligations)", "obligation": "(deductive check undecided: " + "; ".join(str(r["error"]) for r in undecided_units)[:300] + ")",
+                       "path": "", "baseline": "n/a", "verifier": {"verdict": "undecided"}, "found_by": "bounded native scenario (stand-in, not a proof)",
+                       "native_replay": {"reproduced": True, "scenario": name, "command": f"PYTHONPATH={driver.REPO}/src {driver.PY} {HERE}/replay/scenarios_run.py {name}", "output": out[-1500:]}}
+                json.dump(doc, open(rp, "w"), indent=1)
+                replays.append(rp)
+                lines.append(f"VIOLATION property={prop} replay={rp}")
+                violations.append({"name": f"scenario:{name}", "unit": "replay/scenarios.py", "verdict": "failed", "hyps": 0})
+                break
     # ---- thorough extras -----------------------------------------------------------------------------
     extras = {}
     if tier == "thorough":
@@ -227,6 +250,7 @@ def main() -> int:
             "known_findings": {fid: {"what_fails": f["what_fails"], "obligations": sorted({o['name'] for o in os_})[:20]} for fid, (f, os_) in known_hits.items()},
             "undecided": [o["name"] for o in still_unknown][:40] + [r["unit"] + ": " + str(r["error"]) for r in undecided_units],
             "replays": replays,
+            "bounded_fallback": bounded_fallback,
             "bounded_parts": extras.get("bounded_monitor", {"note": "the bounded monitor runs in the thorough tier only; it is never counted towards `discharged`"}),
             "known_finding_replays": extras.get("known_finding_replays", []),
         },
